@@ -24,7 +24,7 @@ def gen_cases(ctx):
     rng = ctx.rng
     cases = []
     Ps = list(range(1, 25)) if ctx.quick else list(range(1, 49)) + [63, 64, 65, 96, 127, 128]
-    sizes = [0, 1, 3, 8]
+    sizes = [0, 1, 3, 8, 8, 12, 24]       # multiples of 2/4/8: the harness then uses send/receive datatypes of different size
     for P in Ps:
         for bs in ([rng.choice(sizes), rng.choice(sizes)] if ctx.quick else sizes):
             for _ in range(2 if ctx.quick else 4):
